@@ -9,6 +9,11 @@ CHECKS = {
   technique="runtime monitoring: token-stream monitor (T1-T5) wrapped around the real lexer/parser in crash-isolated workers, mutation-driven hostile inputs",
   text="Every generated input (seeds, ~10 mutators, hostile corpus, depth bombs) is lexed and parsed through all three parser entry points by the real code inside supervised worker processes; online assertions check token type/position/progress, an EOF-pull budget turns livelocks into logical verdicts, recovered panics and dead/hung workers are attributed to the input. Held on the executions observed only.",
   note="Trusts the harness position mapper (rune columns, LF lines) and the bounded-progress restatement of termination (<=64 consecutive EOF pulls, watchdog with isolated re-run)."),
+ "C19": dict(
+  category="exploration", design_ref="DESIGN.md §4 C19",
+  technique="runtime monitoring: encode/decode round-trip differ over parser-produced statements + decoder totality under panic guard, EOF-budget reader and sync.Pool poisoning, in crash-isolated workers",
+  text="Every statement (top-level and nested) of the seed and forced corpora is encoded and decoded by the real codec and compared structurally; every valid encoding is truncated at every length, bit-flipped, byte-swept, length-rewritten, spliced and randomly overwritten and each mutant is decoded (Decode and plugin.ReadLinterRequest) under five pool poisons. Held on the executions observed only.",
+  note="Trusts astcmp (reflection walk ignoring Meta and the presentational flags listed in the evidence) and the bounded-progress restatement of decoder termination (<=64 reads past EOF, watchdog). Depth bombs are sized to the 64 MiB worker stack."),
 }
 
 NOT_APPLICABLE = {}
